@@ -12,6 +12,9 @@ def gen_histories(tier, rng):
         # a no-op first step so that the abstract model starts from the harness' own parse of the file
         first = Step(steps[0].clock, "stop", ["%s" % hx(b"0001-01-01"), hx(b"0:00"), "_", "_"])
         out.append(history_request(doc.render(), cfg, [first] + steps))
+    for _ in range(120 if tier == "quick" else 10000):
+        b, cfg, steps = pause_scenario(rng)
+        out.append(history_request(b, cfg, steps))
     return out
 
 def suites():
